@@ -411,7 +411,8 @@ def expr_grammar(rnd):
     nbin = rnd.randint(1, 5); npre = rnd.choice([0, 0, 1, 2]); npost = rnd.choice([0, 0, 1])
     ops = rnd.sample(OPCHARS, nbin + npre + npost)
     terms = []; rules = []
-    def prec(): return rnd.choice([0, 1, 1, 2, 2, 3, 4, -1, -2])
+    wide = rnd.random() < 0.2      # precedence levels beyond 16 bits: 1 and 65537 are different levels, 40000 is higher than 3
+    def prec(): return rnd.choice([0, 1, 65537, 2, 40000, 3, 100000, -1, -40000, 32768, -65535]) if wide else rnd.choice([0, 1, 1, 2, 2, 3, 4, -1, -2])
     def assoc(): return rnd.choice(['n', 'l', 'l', 'r'])
     atom = len(terms); terms.append(Term('c', 'i'))
     rules.append(Rule(0, [('t', atom)]))
@@ -432,7 +433,7 @@ def expr_grammar(rnd):
             j = rnd.choice(cands)
         if j is None:
             j = len(terms); terms.append(Term('c', ch, prec(), assoc()))
-        rules.append(Rule(0, [('t', j), ('n', 0)], prec=(rnd.choice([3, 4, 5, 6]) if rnd.random() < 0.6 else None)))
+        rules.append(Rule(0, [('t', j), ('n', 0)], prec=(rnd.choice([3, 4, 5, 6] + ([65536, 100000, 70003] if wide else [])) if rnd.random() < 0.6 else None)))
     for k in range(npost):
         j = len(terms); terms.append(Term('c', ops[nbin + npre + k], prec(), assoc()))
         rules.append(Rule(0, [('n', 0), ('t', j)], prec=(rnd.choice([3, 4, 5]) if rnd.random() < 0.3 else None)))
@@ -467,7 +468,7 @@ def with_precedence(g, rnd):
     """random precedence/associativity sprinkled over a generic grammar that has S/R conflicts"""
     g = clone(g)
     for j, t in enumerate(g.terms):
-        if rnd.random() < 0.6: g.terms[j] = Term(t.kind, t.text, rnd.choice([-1, 0, 1, 2, 3]), rnd.choice(['n', 'l', 'r']), t.name, t.typed)
+        if rnd.random() < 0.6: g.terms[j] = Term(t.kind, t.text, rnd.choice([-1, 0, 1, 2, 3] if rnd.random() < 0.85 else [1, 65537, 40000, -40000, 32768, 2]), rnd.choice(['n', 'l', 'r']), t.name, t.typed)
     for i, r in enumerate(g.rules):
         if rnd.random() < 0.2: g.rules[i] = Rule(r.lhs, r.rhs, rnd.choice([1, 2, 3, -1]), r.ftor)
     g.note += '+prec'
